@@ -67,6 +67,23 @@ def check(acc: Acc, name: str, xs: list[float], dyadic: bool) -> None:
         acc.violate("array-shape", {"hedge": name}, {"hedge": name, "x": xs[:4]}, arr.shape, np.shape(Y1),
                     f"{name}: array evaluation does not preserve the shape")
         return
+    # one-element arrays keep their shape; results are fresh arrays (editing one does not change a later result)
+    for shape in ((1,), (1, 1), (1, 1, 1)):
+        one = np.full(shape, xs[len(xs) // 2])
+        r = h.hedge(one)
+        if not isinstance(r, np.ndarray) or r.shape != shape:
+            acc.violate("array-shape", {"hedge": name, "shape": "one-element"}, {"hedge": name, "x": xs[len(xs) // 2]}, list(shape),
+                        f"{type(r).__name__} {list(np.shape(r))}", f"{name}: a one-element array of shape {shape} comes back as {type(r).__name__} of shape {np.shape(r)}")
+            return
+    first = h.hedge(arr)
+    keep_first = np.array(first, dtype=float, copy=True)
+    if isinstance(first, np.ndarray) and first.flags.writeable:
+        first[...] = 0.5
+    second = h.hedge(arr)
+    if not np.array_equal(np.asarray(second, dtype=float), keep_first) or (isinstance(first, np.ndarray) and isinstance(second, np.ndarray) and np.shares_memory(first, second)):
+        acc.violate("result-aliased", {"hedge": name}, {"hedge": name, "x": xs[0]}, keep_first[:4].tolist(), np.asarray(second, dtype=float)[:4].tolist(),
+                    f"{name}: the array returned by an earlier call is returned again (or shares memory): editing it changed the next result")
+        return
     sample = arr[:: max(1, len(xs) // 64)]
     want_sample = np.array([float(h.hedge(float(v))) for v in sample])
     kinds = {"list": lambda: h.hedge(list(sample)), "matrix": lambda: np.asarray(h.hedge(np.matrix(sample))).ravel(),
